@@ -73,14 +73,17 @@ pub open spec fn assigned_spec(d: u8) -> AssignedMode { if d == 0 { AssignedMode
 def apply(fc):
     fc.add_prologue(PROLOGUE)
     fc.add_epilogue(SPEC)
-    fc.contract('parse', within='impl EpfdType', ensures=['r == epfd_spec(data)'])
-    fc.contract('parse', within='impl ShipType', ensures=['r == shiptype_spec(data)'])
+    fc.contract('parse', within='impl EpfdType', ensures=['r == epfd_spec(data)'], tags=['C12'])
+    fc.lemma('epfd_injective', ['C12'])
+    fc.lemma('shiptype_injective', ['C12'])
+    fc.lemma('shiptype_absent', ['C12'])
+    fc.contract('parse', within='impl ShipType', ensures=['r == shiptype_spec(data)'], tags=['C12'])
     # `.unwrap()` of a value that is None for 0 and >= 100: a panicking public conversion outside every listed
     # property (no parser calls it); trait impls cannot carry `requires`, so it is left unverified
     fc.contract('from', within='impl From<u8> for ShipType', external_body=True)
     # round trip (C12): converting back returns the code for 1..=99
     fc.contract('from', within='impl From<ShipType> for u8',
-                ensures=['forall|c: u8| 1 <= c <= 99 && #[trigger] shiptype_spec(c) == Some(value) ==> r == c'])
+                ensures=['forall|c: u8| 1 <= c <= 99 && #[trigger] shiptype_spec(c) == Some(value) ==> r == c'], tags=['C12'])
     # `unreachable!()` arm needs `value <= 1`, which a trait impl cannot require: assumed here, K complete over {0,1}
-    fc.contract('from', within='impl From<u8> for Dte', ensures=['value <= 1 ==> r == dte_spec(value)'], external_body=True)
-    fc.contract('parse', within='impl AssignedMode', requires=['val <= 1'], ensures=['r == assigned_spec(val)'])
+    fc.contract('from', within='impl From<u8> for Dte', ensures=['value <= 1 ==> r == dte_spec(value)'], external_body=True, tags=['C12'])
+    fc.contract('parse', within='impl AssignedMode', requires=['val <= 1'], ensures=['r == assigned_spec(val)'], tags=['C12'])
